@@ -42,7 +42,7 @@ NoTok == [g |-> "", perms |-> <<>>, exp |-> 0, sub |-> 0, user |-> ""]
 Msg(t, k) == [type |-> t, kind |-> k, id |-> "", source |-> "", dest |-> "", username |-> "", hasuser |-> 0,
               privileged |-> 0, group |-> "", perms |-> <<>>, value |-> "", error |-> "", noecho |-> 0,
               label |-> "", replace |-> "", tracks |-> <<>>, data |-> "", request |-> "", tok |-> NoTok,
-              clear |-> [user |-> "", id |-> ""], tgroups |-> <<>>]
+              clear |-> [user |-> "", id |-> ""], tgroups |-> <<>>, seqno |-> -1]
 Sent(c, m) == [ev |-> "sent", c |-> c, m |-> m]
 Recv(c, m) == [ev |-> "recv", c |-> c, m |-> m]
 Closed(c) == [ev |-> "wsclosed", c |-> c]
